@@ -75,20 +75,14 @@ Print Assumptions C16_truncated_form_three_way.
 Theorem C16_kept_questions : forall max qs,
   (exists rest, qs = kept_q max qs ++ rest) /\
   (12 + qs_len qs <= max -> kept_q max qs = qs) /\
-  (trunc_questions_limited = false -> kept_q max qs = qs) /\
-  (trunc_questions_limited = true -> 12 <= max -> 12 + qs_len (kept_q max qs) <= max).
+  (12 <= max -> 12 + qs_len (kept_q max qs) <= max).
 Proof. exact top_kept_questions. Qed.
 Print Assumptions C16_kept_questions.
 
-(* the response fits the limit when header + questions do - and always once the
-   question loop of truncate is limit-aware; before that, header + questions over
-   the limit leave as exactly that, TC set *)
-Theorem C16_udp_size_bound : forall rq hint m, mlen m <= 65535 ->
-  ((trunc_questions_limited = true /\ 12 <= tmax rq hint) \/ hq_len m <= tmax rq hint ->
-     mlen (post rq hint m) <= tmax rq hint) /\
-  (trunc_questions_limited = false -> tmax rq hint < hq_len m ->
-     mlen (post rq hint m) = hq_len m /\ tc_set (m_b2 (post rq hint m)) = true /\
-     m_an (post rq hint m) = [] /\ m_ns (post rq hint m) = [] /\ m_ar (post rq hint m) = []).
+(* the response of the middleware stack fits the limit - no proviso left but a
+   limit of at least the 12 header octets (it is at least 512) *)
+Theorem C16_udp_size_bound : forall rq hint m, mlen m <= 65535 -> 12 <= tmax rq hint ->
+  mlen (post rq hint m) <= tmax rq hint.
 Proof. exact top_udp_size_bound. Qed.
 Print Assumptions C16_udp_size_bound.
 
@@ -101,27 +95,12 @@ Proof. exact top_udp_size_bound_one_question. Qed.
 Print Assumptions C16_udp_size_bound_one_question.
 
 (* ---- the datagram server as a whole: every path that answers a datagram ---- *)
-Theorem C16_udp_server_bound_once_fixed :
-  trunc_questions_limited = true -> err_resp_first_question_only = true ->
-  forall x cfg svc r, hint_ok cfg -> Forall wf_q (firstn 1 (x_qs x)) ->
+Theorem C16_udp_server_bound : forall x cfg svc r,
+  hint_ok cfg -> Forall wf_q (firstn 1 (x_qs x)) ->
   (forall m, svc = SvcOk m -> mlen m <= 65535) ->
   udp_server x cfg svc = Ok (Some r) -> mlen r <= text_limit (x_client x) cfg.
-Proof. exact top_udp_server_bound_once_fixed. Qed.
-Print Assumptions C16_udp_server_bound_once_fixed.
-
-(* a STATUS request with 100 questions whose answer echoes them: 712 octets, TC set *)
-Theorem C16_udp_many_questions_refuted : trunc_questions_limited = false ->
-  exists r, udp_server many_q_x None many_q_svc = Ok (Some r) /\
-            tc_set (m_b2 r) = true /\ mlen r = 712 /\ text_limit (x_client many_q_x) None = 512.
-Proof. exact top_many_questions_refuted. Qed.
-Print Assumptions C16_udp_many_questions_refuted.
-
-(* a reply (QR = 1) with 100 questions: a FORMERR of 723 octets, not truncated *)
-Theorem C16_udp_error_echo_refuted : err_resp_first_question_only = false ->
-  exists r, udp_server many_q_reply (Some 1232) SvcNone = Ok (Some r) /\
-            tc_set (m_b2 r) = false /\ mlen r = 723 /\ text_limit (x_client many_q_reply) (Some 1232) = 512.
-Proof. exact top_error_echo_refuted. Qed.
-Print Assumptions C16_udp_error_echo_refuted.
+Proof. exact top_udp_server_bound. Qed.
+Print Assumptions C16_udp_server_bound.
 
 Theorem C16_udp_server_total : forall x cfg svc, exists r, udp_server x cfg svc = Ok r.
 Proof. exact top_udp_server_total. Qed.
@@ -155,7 +134,6 @@ Print Assumptions C16_truncated_wellformed.
 Theorem C16_id_question_echoed : forall rq cfg m r, mlen m <= 65535 ->
   udp_response rq cfg m = Ok r ->
   m_id r = rq_id rq /\ (exists rest, m_qs m = m_qs r ++ rest) /\
-  (trunc_questions_limited = false -> m_qs r = m_qs m) /\
   (forall q, hint_ok cfg -> m_qs m = [q] -> wf_q q -> m_qs r = [q]).
 Proof. exact top_id_question_echoed. Qed.
 Print Assumptions C16_id_question_echoed.
